@@ -16,9 +16,9 @@ theorem KeepCD.percents {L L' : Ledger} (h : KeepCD L L') (hp : PercentsOK L) : 
   unfold PercentsOK; rw [h]; exact hp
 
 theorem keepCD_accountAdd {L L' : Ledger} {a : Addr} {x : Nat} (h : accountAdd L a x = .ok L') : KeepCD L L' := by
-  obtain ⟨_, rfl, _⟩ := accountAdd_ok h; rfl
+  obtain ⟨_, vs, rfl, _⟩ := accountAdd_ok h; rfl
 theorem keepCD_accountSub {L L' : Ledger} {a : Addr} {x : Nat} (h : accountSub L a x = .ok L') : KeepCD L L' := by
-  obtain ⟨_, rfl, _⟩ := accountSub_ok h; rfl
+  obtain ⟨_, vs, rfl, _⟩ := accountSub_ok h; rfl
 theorem keepCD_poolSub {L L' : Ledger} {a x : Nat} (h : poolSub L a x = .ok L') : KeepCD L L' := by
   obtain ⟨_, rfl, _⟩ := poolSub_ok h; rfl
 theorem keepCD_setValidatorUnstaking (L : Ledger) (a : Addr) (v : Validator) (f : Nat) : KeepCD L (setValidatorUnstaking L a v f) := by
@@ -250,12 +250,34 @@ theorem keepCD_handleChangeParameter {L L' : Ledger} {space key : String} {v s e
           obtain rfl := Except.ok.inj h
           exact k1.trans (keepCD_foldlM_trim _ _ r hr)
 
+theorem keepCD_accountAddWithVesting {L L' : Ledger} {dst : Addr} {x st cl en : Nat}
+    (h : accountAddWithVesting L dst x st cl en = .ok L') : KeepCD L L' := by
+  obtain ⟨acc, vs, rfl, _⟩ := accountAddWithVesting_ok h; rfl
+
+theorem keepCD_faucetTopUp {L L' : Ledger} {a : Addr} {r : Nat} (h1 : faucetTopUp L a r = .ok L') : KeepCD L L' := by
+  unfold faucetTopUp at h1
+  split at h1
+  · obtain rfl := Except.ok.inj h1; rfl
+  · split at h1
+    · obtain rfl := Except.ok.inj h1; rfl
+    · split at h1
+      · obtain rfl := Except.ok.inj h1; rfl
+      · unfold mintToAccount at h1
+        split at h1
+        · obtain rfl := Except.ok.inj h1; rfl
+        · have := keepCD_accountAdd h1; exact this
+
 theorem keepCD_handleMessage {L L' : Ledger} {sender : Addr} {msg : Msg} (h : handleMessage L sender msg = .ok L') : KeepCD L L' := by
   cases msg with
   | send s d x =>
     simp only [handleMessage, handleSend] at h
     obtain ⟨L1, h1, h2⟩ := bind_ok h
     exact (keepCD_accountSub h1).trans (keepCD_accountAdd h2)
+  | sendVesting s d x st cl en =>
+    simp only [handleMessage, handleSendVesting] at h
+    obtain ⟨_, _, h⟩ := bind_ok h
+    obtain ⟨L1, h1, h2⟩ := bind_ok h
+    exact (keepCD_accountSub h1).trans (keepCD_accountAddWithVesting h2)
   | stake a x cs dl c o =>
     obtain ⟨_, _, L1, L2, L3, h1, h2, h3, rfl⟩ := handleStake_inv h
     have k1 := keepCD_accountSub h1
@@ -319,17 +341,12 @@ theorem keepCD_applyTx {L L' : Ledger} {sender : Addr} {fee : Nat} {msg : Msg} (
                   simp only [txFaucet] at h1
                   split at h1
                   · exact absurd h1 (by intro h; cases h)
-                  · unfold faucetTopUp at h1
-                    split at h1
-                    · obtain rfl := Except.ok.inj h1; rfl
-                    · split at h1
-                      · obtain rfl := Except.ok.inj h1; rfl
-                      · split at h1
-                        · obtain rfl := Except.ok.inj h1; rfl
-                        · unfold mintToAccount at h1
-                          split at h1
-                          · obtain rfl := Except.ok.inj h1; rfl
-                          · have := keepCD_accountAdd h1; exact this
+                  · exact keepCD_faucetTopUp h1
+                | sendVesting s d x st cl en =>
+                  simp only [txFaucet] at h1
+                  split at h1
+                  · exact absurd h1 (by intro h; cases h)
+                  · exact keepCD_faucetTopUp h1
                 | stake | editStake | unstake | pause | unpause | daoTransfer | subsidy | changeParameter =>
                   simp only [txFaucet] at h1; obtain rfl := Except.ok.inj h1; rfl
               exact (k1.trans (keepCD_deductFees h2)).trans (keepCD_handleMessage h)
